@@ -2404,6 +2404,17 @@ func (c *fctx) rangeStmt(s *ast.RangeStmt, ind int, rest cont) string {
 		t.failf(s.X.Pos(), "range over %s", c.info.TypeOf(s.X))
 	}
 	state, names := c.loopState(s.Body, own)
+	if id := rootIdent(s.X); id != nil {
+		// the elements of a slice are read when they are reached: a body that stores into the slice it
+		// ranges over would see its own stores, which the fold over the initial contents does not show
+		if n, ok := c.vars[c.info.Uses[id]]; ok {
+			for _, m := range names {
+				if m == n {
+					t.failf(s.X.Pos(), "loop body assigns %s, which the loop ranges over", id.Name)
+				}
+			}
+		}
+	}
 	args := "0 " + xs
 	return c.loop(ind, comb, key, elem, bind, args, state, len(names), s.Body, rest)
 }
